@@ -22,11 +22,15 @@ func TestVerifClientFree(t *testing.T) {
 	defer tw.close()
 	runs := envInt("VERIF_FREE_RUNS", 10)
 	for run := 0; run < runs; run++ {
-		freeRun(tw, run)
+		freeRun(tw, run, 0)
+	}
+	// sequential churn: thousands of transactions one after the other through the same pools
+	if n := envInt("VERIF_FREE_CHURN", 0); n > 0 {
+		freeRun(tw, 1000, n)
 	}
 }
 
-func freeRun(tw *traceWriter, run int) {
+func freeRun(tw *traceWriter, run int, churn int) {
 	r := rand.New(rand.NewSource(seed()*7907 + int64(run)))
 	var logging int32 = 1
 	emit := func(m map[string]interface{}) {
@@ -118,6 +122,9 @@ func freeRun(tw *traceWriter, run int) {
 		}
 	}()
 	n := []int{1, 5, 25, 100, 500}[run%5]
+	if churn > 0 {
+		n = churn
+	}
 	var wg sync.WaitGroup
 	var doneCalls int64
 	closeAt := -1
@@ -156,7 +163,7 @@ func freeRun(tw *traceWriter, run int) {
 			}()
 		}
 		wg.Add(1)
-		go func(i int) {
+		call := func(i int) {
 			defer wg.Done()
 			defer atomic.AddInt64(&doneCalls, 1)
 			m := new(stun.Message)
@@ -185,7 +192,12 @@ func freeRun(tw *traceWriter, run int) {
 				m.Raw[j] = 0xEE
 			}
 			emit(map[string]interface{}{"k": "start_ret", "s": i, "err": fmtErr(err), "do": isDo})
-		}(i)
+		}
+		if churn > 0 {
+			call(i) // one after the other
+		} else {
+			go call(i)
+		}
 		if i%16 == 0 {
 			runtime.Gosched()
 		}
